@@ -15,6 +15,8 @@ import (
 
 	"pgregory.net/rapid"
 
+	"github.com/go-critic/go-critic/linter"
+
 	"verif/harness/core"
 	"verif/harness/gen"
 )
@@ -190,4 +192,15 @@ func progSample(pc *gen.ProgCase, extra map[string]any) map[string]any {
 // drawSeeded wraps rapid.Check so that every property is written the same way.
 func check(t *testing.T, fn func(rt *rapid.T)) {
 	rapid.Check(t, fn)
+}
+
+// infosByName returns the registry entries for the named checkers.
+func infosByName(names ...string) []*linter.CheckerInfo {
+	var out []*linter.CheckerInfo
+	for _, n := range names {
+		if in := core.InfoByName(n); in != nil {
+			out = append(out, in)
+		}
+	}
+	return out
 }
